@@ -7,15 +7,15 @@ sys.path.insert(0, os.path.join(HERE, "harness"))
 CHECKS = {
  "C01": dict(engine="A pair-scan", design_ref="5 C01",
    technique="TLC exhaustive model checking of IsiScan.tla (scan = declarative definition) + replay of every terminal state into both backends and the public API",
-   text="TLC enumerates every ordered pair of spike trains on a small integer grid x MRTS, runs the transcribed merge scan step by step in exact rational arithmetic and checks scan = definition (Defs!IsiDef), range, cursor bounds and termination in every state; every terminal state is replayed into isi_distance_python, the transliterated isi_profile_cython and pyspike.isi_profile under a dyadic unit-scale sweep and compared (breakpoints exactly, values to 1e-10).",
+   text="TLC enumerates every ordered pair of spike trains on a small integer grid x MRTS, runs the transcribed merge scan step by step in exact rational arithmetic and checks scan = definition (Defs!IsiDef), range, cursor bounds and termination in every state; every terminal state is replayed into isi_distance_python, the transliterated isi_profile_cython and pyspike.isi_profile under five frames (unit scales 2^-40 .. 2^10, far origin 2^30) and compared (breakpoints exactly, values to 1e-10); in addition seeded executions of the hooked python backend on larger random inputs (T=60, <=20 spikes) are validated step by step against IsiTrace.tla (cursors and interval lengths per loop iteration, all IsiScan invariants evaluated on the recorded trace).",
    note="small scope (all subsets of <= 8 grid points, sparse trains on 11 points); floating point judged by tolerance 1e-10; the compiled backend is executed by source transliteration of the .pyx files, not by a C build"),
  "C02": dict(engine="A pair-scan", design_ref="5 C02",
    technique="TLC exhaustive model checking of SpikeScan.tla (scan = declarative definition incl. one-sided limits) + replay of every terminal state into both backends and the public API",
-   text="As C01 for the SPIKE profile: the incremental nearest-spike search, the per-train interpolation state and the three loop branches are transcribed; TLC checks equality with the declarative definition (left and right limits at every breakpoint), zero at shared spikes, range, global minimality of the early-exit search; terminal states are replayed into spike_distance_python, spike_profile_cython (transliterated) and pyspike.spike_profile for plain, RI and adaptive variants.",
+   text="As C01 for the SPIKE profile: the incremental nearest-spike search, the per-train interpolation state and the three loop branches are transcribed; TLC checks equality with the declarative definition (left and right limits at every breakpoint), zero at shared spikes, range, global minimality of the early-exit search; terminal states are replayed into spike_distance_python, spike_profile_cython (transliterated) and pyspike.spike_profile for plain, RI and adaptive variants under five frames; recorded executions on larger random inputs are validated step by step against SpikeTrace.tla.",
    note="small scope; a piecewise-linear profile is compared through its one-sided limits at all breakpoints; tolerance 1e-10; .pyx by transliteration"),
  "C03": dict(engine="A pair-scan", design_ref="5 C03",
    technique="TLC exhaustive model checking of SyncScan.tla / SingleScan.tla against the pairwise coincidence definition + replay into both backends and the public API",
-   text="The coincidence set is defined pairwise over all index pairs (Defs!Coinc); TLC checks that the merged-sequence scan marks exactly those spikes, that coincidence is one-to-one and mutual, that the event marked at n-1 is the partner, and that the per-spike indicator scan agrees; terminal states (all pairs x MRTS x max_tau incl. exact dt = tau ties) are replayed into coincidence_python / coincidence_profile_cython / coincidence_single_* and pyspike.spike_sync_profile.",
+   text="The coincidence set is defined pairwise over all index pairs (Defs!Coinc); TLC checks that the merged-sequence scan marks exactly those spikes, that coincidence is one-to-one and mutual, that the event marked at n-1 is the partner, and that the per-spike indicator scan agrees; terminal states (all pairs x MRTS x max_tau incl. exact dt = tau ties) are replayed into coincidence_python / coincidence_profile_cython / coincidence_single_* and pyspike.spike_sync_profile under five frames (max_tau from below an ISI to beyond the recording); recorded executions on larger random inputs are validated against SyncTrace.tla.",
    note="small scope (dense 6-7 points, sparse 8-10 points with <= 3 spikes); .pyx by transliteration"),
  "C04": dict(engine="A pair-scan + C session", design_ref="5 C04",
    technique="TLC exhaustive model checking of SyncScan.tla (order / directionality observers, swap relation) + replay into kernels and public bivariate API",
@@ -25,7 +25,7 @@ CHECKS = {
 CHECKS.update({
  "C07": dict(engine="A pair-scan (relations)", design_ref="5 C07",
    technique="TLC exhaustive model checking of Relations.tla (Symmetric, Identity, InRange on the definitions) + execution of every exported case on the code under swap / self / copy",
-   text="TLC checks on the declarative definitions, for every ordered pair of trains x MRTS x RI x max_tau, that ISI / SPIKE / SPIKE-Sync are symmetric, 0 / 0 / 1 on identical trains, un-normalised self-directionality 0, and all values in range; every TLC state is then executed on the implementation (both backends): f(a,b) vs f(b,a), f(a,a), f(a,copy), range of every profile value and of distances over the whole recording and 4 sub-intervals.",
+   text="TLC checks on the declarative definitions, for every ordered pair of trains x MRTS x RI x max_tau, that ISI / SPIKE / SPIKE-Sync are symmetric, 0 / 0 / 1 on identical trains, un-normalised self-directionality 0, and all values in range; every TLC state is then executed on the implementation (both backends): f(a,b) vs f(b,a), f(a,a), f(a,copy), range of every profile value and of distances over the whole recording and 4 sub-intervals, also with MRTS='auto'; the range clause on larger inputs is the InRange invariant evaluated by TLC on recorded executions (IsiTrace / SpikeTrace).",
    note="relations on the code are code-vs-code (tolerance 1e-10); scan = definition is C01-C04; small scope; .pyx by transliteration"),
  "C08": dict(engine="A pair-scan (relations)", design_ref="5 C08",
    technique="TLC exhaustive model checking of Relations.tla (ShiftInv, ScaleInv, MirrorSym) + execution of every exported case on the code under the same transformations",
@@ -43,7 +43,7 @@ CHECKS.update({
 CHECKS.update({
  "C09": dict(engine="B function objects", design_ref="5 C09",
    technique="TLC exhaustive model checking of FuncObjects.tla (heap with ghost denotations; Represents, XIsUnion, OnlyReceiverChanges, Commutes, IntegralLinear) + replay of every transition into real function objects with whole-heap comparison",
-   text="A heap of three function objects over every pair of breakpoint patterns with generic piece values; the add routines (merge loop, tail-copy branches, simultaneous end) are transcribed and TLC checks in every reachable state that the concrete arrays denote the ghost linear combination (one-sided limits at every grid point), that breakpoints are the strictly increasing union, that only the receiver changes, that addition commutes and the integral is linear. Every transition (pre-heap, op, post-heap) is replayed on PieceWiseConstFunc / PieceWiseLinFunc under both add backends: the whole heap is compared and an independence probe (scale one object, all others bit-identical) detects shared arrays.",
+   text="A heap of three function objects over every pair of breakpoint patterns with generic piece values; the add routines (merge loop, tail-copy branches, simultaneous end) are transcribed and TLC checks in every reachable state that the concrete arrays denote the ghost linear combination (one-sided limits at every grid point), that breakpoints are the strictly increasing union, that only the receiver changes, that addition commutes and the integral is linear. Every transition (pre-heap, op, post-heap) is replayed on PieceWiseConstFunc / PieceWiseLinFunc under both add backends: the whole heap is compared; an independence probe (scale one object, all others bit-identical) detects shared arrays, a later-operation probe detects state shared between calls, a dtype probe compares integer-built and float-built receivers; three frames (far origin, tiny unit) and integer-constructed breakpoints.",
    note="histories are covered transition-wise from every heap reachable within MaxOps operations (2 quick / 3 thorough); small grids; tolerance 1e-10"),
  "C10": dict(engine="B function objects", design_ref="5 C10",
    technique="TLC exhaustive model checking of FuncQuery.tla (code formula = exact Riemann integral / evaluation rule for every function x query) + replay of every state into integral / avrg / __call__ / get_plottable_data",
@@ -55,7 +55,7 @@ CHECKS.update({
    note="events on integer times incl. the edge times; multiplicities 1..3; small grids"),
  "C12": dict(engine="A + B (twins)", design_ref="5 C12",
    technique="replay of the TLC-exported argument tuples of IsiScan / SpikeScan / SyncScan / FuncObjects into both members of each of the 15 routine pairs (python_backend vs transliterated .pyx), single-pass routines vs sums over the profile",
-   text="Both implementations are bound to the same L2 specification modules; every terminal state / add transition TLC exports is executed on the pure-Python routine and on the .pyx routine (source-level transliteration with bounds-checked memoryviews and C division) and the two results are compared with each other; the five single-pass routines are compared with the sum / average of the corresponding profile; get_tau is compared for every index pair the scans can request; the existence of all 15 pairs is checked.",
+   text="Both implementations are bound to the same L2 specification modules; every terminal state / add transition TLC exports is executed on the pure-Python routine and on the .pyx routine (source-level transliteration with bounds-checked memoryviews and C division) and the two results are compared with each other; the five single-pass routines are compared with the sum / average of the corresponding profile; get_tau is compared for every index pair the scans can request; larger random argument tuples (T=60) are run through both twins; every public bivariate function is executed under both backend configurations (twin_api); the existence of all 15 pairs is checked.",
    note="executes the .pyx source semantics, not a C build: C compilation, int overflow and nogil threading are not covered"),
 })
 CHECKS.update({
@@ -65,7 +65,7 @@ CHECKS.update({
    note="relational (code vs code); N = 2..4 trains, lists sampled from the grid trains by a seeded random subset in the quick tier; tolerance 1e-10"),
  "C06": dict(engine="C session", design_ref="5 C06",
    technique="TLC model checking of Multi.tla (PointwiseMean, PooledEvents, PermInvariant, MatrixIsBivariate) + replay of every state into the multivariate entry points and all list permutations",
-   text="TLC checks that the multivariate ISI / SPIKE profile produced by pair generation + recursive halving + add + 1/M is at every grid time (both one-sided limits) the mean of the bivariate definitions, that the multivariate SPIKE-Sync profile carries the summed counts and multiplicities per event time, that results are identical for every permutation of the list and that matrices hold the bivariate values (symmetric, diagonal 0 / 1). Every state is replayed (expected arrays / values) and re-run under permutations of the list on both backends.",
+   text="TLC checks that the multivariate ISI / SPIKE profile produced by pair generation + recursive halving + add + 1/M is at every grid time (both one-sided limits) the mean of the bivariate definitions, that the multivariate SPIKE-Sync profile carries the summed counts and multiplicities per event time, that results are identical for every permutation of the list and that matrices hold the bivariate values (symmetric, diagonal 0 / 1). Every state is replayed (expected arrays / values; multivariate profiles by denotation) and re-run under permutations of the list on both backends; recorded session-level calls on larger lists (up to 7 trains, T=16) are evaluated by TLC (MultiTrace.tla) and compared.",
    note="N = 3 (all 6 permutations), N = 4 (6 of 24), N = 5 in the thorough tier; lists with empty and repeated trains; small grid"),
  "C13": dict(engine="C session", design_ref="5 C13",
    technique="TLC model checking of Reconcile.tla (ReconcileDef, Idempotent, OrderIrrelevant) over messy trains + replay: reconcile result compared exactly, every public measure on messy input vs on the spec's normal form with Reconcile=False, input snapshots around every call",
